@@ -6,6 +6,7 @@ import numpy as np
 from ..core import guarded
 from ..gens import spectra as gs
 from ..monitors import spectrum as ms
+from ..monitors import history as hist
 from ..oracles import spectral as osp
 
 PROPERTY = "C02"
@@ -117,6 +118,13 @@ def judge(ctx, c):
             ctx.close(f"C02.reduce:{name}", b[fin], a[fin], atol=1e-7, rtol=1e-9, case=wit, key=f"C02:reduce:{name}")
 
 
+def history_io(c):
+    reads = hist.reads_from(c, banded=("m0", "hm0"), plain=("e", "a1", "b1", "a2", "b2"),
+                            calls=(("as_frequency_spectrum().variance_density",
+                                    lambda s: s.as_frequency_spectrum().variance_density),))
+    return reads, hist.spectrum_mods(c, with_depth=False)
+
+
 def run_shard(ctx, shard):
     if shard.get("repo_tests"):
         from ..core import run_repo_tests_under_contracts
@@ -125,12 +133,18 @@ def run_shard(ctx, shard):
         return
     rng = ctx.rng()
     for i in range(shard["n"]):
-        judge(ctx, make_case(rng))
+        c = make_case(rng)
+        judge(ctx, c)
+        if i % 2 == 0:
+            c["_hseed"] = int(rng.integers(0, 2 ** 62))
+            hist.judge_history(ctx, "C02", c, np.random.default_rng(c["_hseed"]), *history_io(c))
 
 
 def replay(ctx, case):
     ms.install(ctx)
     if "method" in case:
         ms.call_case(case)
+    elif "history" in case:
+        hist.run_history(ctx, "C02", case["gen"], case["history"], *history_io(case["gen"]))
     else:
         judge(ctx, case["gen"])
